@@ -637,12 +637,17 @@ def pickLoop (e : Env) : Nat → List Nat → List Nat → St → St × List Nat
         if failed.isEmpty then ({ σ with warnings := σ.warnings ++ ["deadlock"] }, failed ++ tasks)
         else (σ, failed)
 
+/-- everything `scheduleScenario` does before its main loop -/
+def preLoop (e : Env) (σ : St) : St := updateContainers e (propagateAlap e (milestonePrepass e σ))
+
+/-- the work list: unscheduled leaves sorted by (priority descending, declaration order) -/
+def todoOf (e : Env) (σ : St) : List Nat :=
+  ((List.range e.tasks.size).filter (fun t => (e.taskD t).leaf && !(σ.tst t).scheduled)).mergeSort (prioLe e)
+
 def scheduleScenario (e : Env) (σ : St) : St :=
-  let σ1 := milestonePrepass e σ
-  let σ2 := updateContainers e (propagateAlap e σ1)
-  let todo := ((List.range e.tasks.size).filter (fun t => (e.taskD t).leaf && !(σ2.tst t).scheduled)).mergeSort (prioLe e)
-  let (σ3, failed) := pickLoop e (todo.length + 1) todo [] σ2
-  if failed.isEmpty then σ3 else { σ3 with warnings := σ3.warnings ++ ["unscheduled_tasks"] }
+  let σ2 := preLoop e σ
+  let r := pickLoop e ((todoOf e σ2).length + 1) (todoOf e σ2) [] σ2
+  if r.2.isEmpty then r.1 else { r.1 with warnings := r.1.warnings ++ ["unscheduled_tasks"] }
 
 /-- one scenario, start to finish -/
 def runScenario (e : Env) : St :=
